@@ -45,6 +45,7 @@ type sstCase struct {
 	style        string
 	flavour      string // "table" (ascending, fault free) or "program"
 	calls        []sstCall
+	extra        []sstProbe // hand-written probes of a corpus case, run after the generated ones
 }
 
 func (c *sstCase) callsString(calls []sstCall) string {
@@ -192,6 +193,10 @@ func sstGenCase(r *Rng, tier string) *sstCase {
 			copy(big[1:], r.Bytes(len(big)-1))
 		}
 		keys = append(keys, big)
+		// the randomised variant (ff + random bytes) may sort below an existing key that starts with ff ff:
+		// keep the list ascending (a "table" case written through the simple writer is sorted by the skip
+		// list anyway, and its reference must see the same order)
+		sort.Slice(keys, func(i, j int) bool { return bytes.Compare(keys[i], keys[j]) < 0 })
 	}
 	bigValues := len(keys) <= 60
 	mk := func(k []byte) sstCall {
@@ -752,6 +757,12 @@ func sstProbes(r *Rng, c *sstCase, acc []sstKV, bf *bloomfilter.Filter, tier str
 		}
 		ps = append(ps, sstProbe{kind: "range", a: append(append([]byte{}, max...), 0), b: append(append([]byte{}, max...), 1)})
 	}
+	for _, p := range c.extra {
+		if p.kind == "has" {
+			p.bloom = bloomOf(p.a)
+		}
+		ps = append(ps, p)
+	}
 	ps = append(ps, sstProbe{kind: "scan"})
 	return ps
 }
@@ -780,32 +791,6 @@ func sstPadCollision(acc []sstKV, p sstProbe, n int) bool {
 		}
 		if o, ok := seen[sstPad(k, n)]; ok && !bytes.Equal(o, k) {
 			return true
-		}
-	}
-	return false
-}
-
-// would the disk index's binary search over byte offsets probe an offset behind the start of the last
-// index record (SeekNext reports EOF there and the search gives up with "absent")?
-func sstDiskEOFInSearch(ref *sstRef, target []byte) bool {
-	if len(ref.idxOffs) == 0 {
-		return false
-	}
-	n := uint64(len(ref.index))
-	lastStart := ref.idxOffs[len(ref.idxOffs)-1]
-	first := func(h uint64) int { // first record starting at or after h
-		return sort.Search(len(ref.idxOffs), func(i int) bool { return ref.idxOffs[i] >= h })
-	}
-	i, j := uint64(0), n
-	for i < j {
-		h := (i + j) >> 1
-		if h > lastStart {
-			return true
-		}
-		if bytes.Compare(ref.acc[first(h)].key, target) < 0 {
-			i = h + 1
-		} else {
-			j = h
 		}
 	}
 	return false
@@ -858,26 +843,9 @@ func sstSig(c *sstCase, ref *sstRef, cfg sstReaderCfg, p sstProbe, indexPath str
 		}
 		return "map-index:" + p.kind
 	case "disk":
-		if p.kind == "range" && len(ref.acc) > 0 && bytes.Compare(p.a, p.b) <= 0 && bytes.Compare(p.b, ref.acc[0].key) < 0 {
-			return "disk-index:range-upper-below-min"
-		}
-		keys := [][]byte{}
-		switch p.kind {
-		case "get", "has", "from":
-			keys = append(keys, p.a)
-		case "range":
-			keys = append(keys, p.a, p.b)
-		}
-		for _, k := range keys {
-			if sstDiskEOFInSearch(ref, k) {
-				return "disk-index:eof-in-binary-search"
-			}
-		}
-		// findAt caches the (empty) record of a FAILED SeekNext and hands it out later without the error;
-		// an empty record compares equal to the empty key
-		if (p.kind == "get" || p.kind == "has") && len(p.a) == 0 && (len(ref.acc) == 0 || len(ref.acc[0].key) != 0) {
-			return "disk-index:cached-failed-read-matches-empty-key"
-		}
+		// the only known limitation left: a key that embeds a complete valid record (format limitation shared
+		// with SeekNext, C04).  The three defects repaired by 37d0b89, 93d8a40, 90fd3ef have no signature of
+		// their own any more: a recurrence is an ordinary violation (and a disagreement with the model).
 		if *phantom < 0 {
 			*phantom = b2i(sstIndexHasPhantom(indexPath, ref))
 		}
@@ -948,6 +916,7 @@ func sstCorpus(seed uint64) []*sstCase {
 	inner, _ := gproto.Marshal(&sProto.IndexEntry{Key: []byte("zz"), ValueOffset: 8})
 	phantom := append([]byte{9}, encodeRecordRef(inner, false)...)
 	twelve := bytes.Repeat([]byte{2}, 12)
+	with := func(c *sstCase, ps ...sstProbe) *sstCase { c.extra = ps; return c }
 	// tables holding MORE records than the bloom filter was dimensioned for, through both writers:
 	// a tiny expectation with a sparse filter, and the default expectation of 1000 with 1100 small records
 	many := func(n int, bloomN uint64, p float64, simple bool) *sstCase {
@@ -968,8 +937,15 @@ func sstCorpus(seed uint64) []*sstCase {
 		many(40, 3, 0.000001, true),
 		many(1040, 1000, 0.01, seed%2 == 0), // default expectation; the writer alternates with the seed
 		mk("short4", sstKV{[]byte("a"), []byte("1")}, sstKV{[]byte("a\x00"), []byte("2")}),                  // map_index_pad_collision
-		mk("mid20", sstKV{[]byte{1}, []byte{7}}, sstKV{twelve, []byte{8}}),                                  // disk_index_eof_in_binary_search
-		mk("short4", sstKV{[]byte{5}, []byte{1}}, sstKV{[]byte{6}, []byte{2}}, sstKV{[]byte{7}, []byte{3}}), // disk_index_range_upper_below_min
+		// regression inputs of the repaired disk-index defects (theorems *_fixed in SST/Props/C03.lean)
+		with(mk("mid20", sstKV{[]byte{1}, []byte{7}}, sstKV{twelve, []byte{8}}), // disk_index_eof_in_binary_search_fixed
+			sstProbe{kind: "get", a: twelve}, sstProbe{kind: "get", a: []byte{1}}, sstProbe{kind: "has", a: twelve}),
+		with(mk("short4", sstKV{[]byte{5}, []byte{1}}, sstKV{[]byte{6}, []byte{2}}, sstKV{[]byte{7}, []byte{3}}), // disk_index_range_upper_below_min_fixed
+			sstProbe{kind: "range", a: []byte{1}, b: []byte{2}}, sstProbe{kind: "range", a: []byte{}, b: []byte{4}}),
+		with(mk("short4"), // disk_index_cached_failed_read_fixed: the empty table, the same lookup over and over
+			sstProbe{kind: "get", a: []byte{}}, sstProbe{kind: "get", a: []byte{}}, sstProbe{kind: "get", a: []byte{}},
+			sstProbe{kind: "get", a: []byte{}}, sstProbe{kind: "get", a: []byte{}}, sstProbe{kind: "get", a: []byte{}},
+			sstProbe{kind: "from", a: []byte{}}, sstProbe{kind: "range", a: []byte{}, b: []byte{}}, sstProbe{kind: "get", a: []byte{}}),
 		mk("long", sstKV{[]byte{1}, []byte{1}}, sstKV{phantom, []byte{2}}, sstKV{[]byte{200}, []byte{3}}),   // disk_index_phantom_in_index_payload
 	}
 }
